@@ -121,7 +121,9 @@ def write_replay(prop, f):
 
 
 def write_evidence(prop, tier, seed, level, coverage, assumptions, wall, nviol):
-    d = os.path.join(HERE, 'evidence')
+    # runs against a scratch copy of the repository (VERIF_REPO, used while developing) never touch the committed evidence
+    d = os.path.join(HERE, 'evidence') if os.environ.get('VERIF_REPO', '/repo') == '/repo' else os.environ.get('VERIF_EVIDENCE_DIR', '/tmp/verif-scratch-evidence')
+    os.makedirs(d, exist_ok=True)
     os.makedirs(d, exist_ok=True)
     ev = {'property_id': prop, 'tier': tier, 'seed': seed, 'level': level,
           'coverage': jsonable(coverage), 'assumptions': assumptions,
